@@ -517,6 +517,11 @@ def do_op(ctx, aid, oi, table, op):
     if k == "nchannels":
         gw = table["__gw__"]
         return ("val", len(gw._channelfactory.channels()) if hasattr(gw, "_channelfactory") else -1)
+    if k == "ncallbacks":
+        # anchored private state (C18): size of the per-gateway callback table; -1 if the attribute is gone
+        cf = getattr(table["__gw__"], "_channelfactory", None)
+        cbs = getattr(cf, "_callbacks", None)
+        return ("val", len(cbs) if cbs is not None else -1)
     if k == "repr_gw":
         return ("val", repr(table["__gw__"]))
     if k == "hasreceiver":
@@ -610,7 +615,8 @@ def _filedata(w):
 # C18: many open -> transfer -> use -> close/drop cycles, both sides in lockstep
 # ---------------------------------------------------------------------------
 
-VARIANTS = ("close_creator", "close_receiver", "drop_both", "cb_close", "close_both", "drop_creator")
+VARIANTS = ("close_creator", "close_receiver", "drop_both", "cb_close", "close_both", "drop_creator", "cb_close_hold",
+            "close_creator_hold")
 NESTS = ("bare", "list", "tuple", "dict")
 
 
@@ -640,18 +646,21 @@ def _cycles(ctx, aid, oi, table, op):
     ids = []
     bad = []
     got_cb = []
+    held = []  # receiver-side references kept until the conversation was closed by its creator
     done = 0
     for k, (creator, variant, nest) in enumerate(plan):
+        if len(held) > 3:
+            del held[0]
         tok = "cyc%d" % k
         if creator == me:
             c = gw.newchannel()
             ids.append(c.id)
-            if variant == "cb_close":
+            if variant in ("cb_close", "cb_close_hold"):
                 del got_cb[:]
                 c.setcallback(got_cb.append)
             via.send(("#IT:%s#" % tok, _nest(c, nest)))
             ack = via.receive()
-            if variant == "cb_close":
+            if variant in ("cb_close", "cb_close_hold"):
                 # the item was sent before the ack on the same connection, callbacks run in wire order
                 item = got_cb[0] if got_cb else None
             else:
@@ -665,7 +674,7 @@ def _cycles(ctx, aid, oi, table, op):
             if ack != ("ack", k):
                 if len(bad) < 5:
                     bad.append(("wrong-ack", k, variant, canon(ack)[:80]))
-            if variant in ("close_creator", "cb_close", "close_both"):
+            if variant in ("close_creator", "cb_close", "close_both", "cb_close_hold", "close_creator_hold"):
                 c.close()
             del c, item
         else:
@@ -679,10 +688,13 @@ def _cycles(ctx, aid, oi, table, op):
             c.send(("#IT:%s#" % tok, "on-sub", k))
             if variant in ("close_receiver", "close_both"):
                 c.close()
+            if variant.endswith("_hold"):
+                held.append(c)  # the creator's close arrives while this side still holds its end
             del c, item
             via.send(("ack", k))
         done += 1
         if gc_every and (k + 1) % gc_every == 0:
             gc.collect()
+    del held[:]
     gc.collect()
     return ("cycles", done, ids, bad)
